@@ -32,7 +32,7 @@ func init() {
 	core.Register(&core.Property{
 		ID:    "C16",
 		Level: "fault_enumeration",
-		Rule: "universe = runs of the real binary over 1..3 target files (kinds: two matching, non-matching, unparseable; every kind at every position) with one fault per execution, injected at the system-call boundary: (a) RLIMIT_FSIZE = n for every n from 0 to the size of the largest output (every length at which a write can be cut); (b) SIGKILL delivered on entry of the k-th call, for every k, of each of openat, read, write, close, renameat/renameat2/rename, unlinkat, fchmod/fchmodat/chmod, ftruncate, fsync, newfstatat (strace inject, per call type until k exceeds the number of calls); (c) the same calls failing with ENOSPC, EIO, EACCES, EROFS; (c') pairs of faults: each of those calls failing with ENOSPC at every k while RLIMIT_FSIZE cuts every write at 0, 1, half and all-but-one byte of the largest output (state invariant only); (d) logical failures (unparseable source, rewrite error, unparseable result, missing path, missing / unreadable-as-directory / malformed patch, missing patches-file) at every position. " +
+		Rule: "universe = runs of the real binary over 1..3 target files (kinds: two matching, non-matching, unparseable; every kind at every position) with one fault per execution, injected at the system-call boundary: (a) RLIMIT_FSIZE = n for every n from 0 to the size of the largest output (every length at which a write can be cut); (b) SIGKILL delivered on entry of the k-th call, for every k, of each of openat, read, write, close, renameat/renameat2/rename, unlinkat, fchmod/fchmodat/chmod, ftruncate, fsync, newfstatat (strace inject, per call type until k exceeds the number of calls); (b') after every killed execution a fault-free run with a second, shorter patch: the result must be that patch applied to what the killed run left (no leftovers of temporaries); (c) the same calls failing with ENOSPC, EIO, EACCES, EROFS; (c') pairs of faults: each of those calls failing with ENOSPC at every k while RLIMIT_FSIZE cuts every write at 0, 1, half and all-but-one byte of the largest output (state invariant only); (d) logical failures (unparseable source, rewrite error, unparseable result, missing path, missing / unreadable-as-directory / malformed patch, missing patches-file) at every position. " +
 			"Oracle: after every execution every .go file equals its original or its complete patched bytes from a fault-free reference run; exit 0 implies every file is in its fault-free final state; a failed action on a path of the run implies non-zero exit and a diagnostic naming a path and the OS cause; per-file logical failures leave the other files' results unchanged. The strace logs are read back: every filesystem action of the reference run on the scratch tree must have been the fault point of at least one execution. non-trivial = an execution in which the fault hit an action on the scratch tree",
 		Assumptions: []string{
 			"faults are injected with strace 6.1 (inject=...:signal=SIGKILL / :error=E:when=k) and prlimit; GOMAXPROCS=1 keeps the per-thread call numbering stable; coverage is verified from the logs rather than assumed",
@@ -194,6 +194,24 @@ func c16Setup(env *core.Env, kinds []string) (root string, names []string, orig 
 		}
 	}
 	return
+}
+
+const c16Patch2 = "@@\nvar x expression\n@@\n-foo(x)\n+b(x)\n"
+
+// c16Patch2Results: what the second patch makes of each original file (fault-free, in a scratch copy).
+func c16Patch2Results(env *core.Env, root string, names []string, orig map[string]string) map[string]string {
+	dir := filepath.Join(root, "ref2")
+	os.MkdirAll(filepath.Join(dir, "t"), 0o755)
+	defer os.RemoveAll(dir)
+	for n, s := range orig {
+		os.WriteFile(filepath.Join(dir, "t", n), []byte(s), 0o644)
+	}
+	os.WriteFile(filepath.Join(root, "p2.patch"), []byte(c16Patch2), 0o644)
+	r := c16Exec(env, dir, names, nil, "", append([]string{"-p", filepath.Join(root, "p2.patch")}, names...))
+	if r.killed {
+		panic("harness: reference run of the second patch died: " + r.stderr)
+	}
+	return r.files
 }
 
 func c16Reset(root string, orig map[string]string) {
@@ -378,6 +396,7 @@ func c16Run(env *core.Env, ci any) core.Outcome {
 	}
 	execs := 0
 	hits := 0
+	var ref2 map[string]string
 	switch c.Family {
 	case "fsize":
 		max := 0
@@ -483,6 +502,30 @@ func c16Run(env *core.Env, ci any) core.Outcome {
 				}
 				if v := check(r, what); v != nil {
 					return *v
+				}
+				// history: a run that was killed, followed by a fault-free run with another patch whose output
+				// is shorter — whatever the killed run left behind (temporaries) must not leak into the result
+				if c.Family == "kill" && r.killed {
+					if ref2 == nil {
+						ref2 = c16Patch2Results(env, root, names, orig)
+					}
+					state := r.files
+					r2 := c16Exec(env, root, names, nil, "", append([]string{"-p", filepath.Join(root, "p2.patch")}, names...))
+					execs++
+					for _, n := range names {
+						want := state[n] // already patched by the killed run: patch 2 does not match it
+						if state[n] == orig[n] {
+							want = ref2[n]
+						}
+						if r2.files[n] != want {
+							return bad("rerun-after-kill", "%s, then a fault-free run with a second patch: %s holds %q, want %q\nstderr: %s", what, n, r2.files[n], want, firstN(r2.stderr, 300))
+						}
+					}
+					for _, e := range r2.extra {
+						if strings.HasSuffix(e, ".go") {
+							return bad("stray-go-file", "%s, then a fault-free run: a new .go file was left behind: %s", what, e)
+						}
+					}
 				}
 				// "when=k" is counted per thread: if two threads reach their k-th call, two faults are injected
 				// (typically the failing action and the write of its diagnostic); such executions only have
